@@ -801,6 +801,12 @@ const Port *Ports::apropos(const char *path) const
     for(const Port &port: ports)
         if(*path && rtosc_match_path(port.name, path, NULL))
             return &port;
+    //(an array named exactly like the path goes before a longer name)
+    const size_t path_len = strlen(path);
+    for(const Port &port: ports)
+        if(*path && !strncmp(port.name, path, path_len) &&
+           port.name[path_len] == '#')
+            return &port;
     for(const Port &port: ports)
         if(*path && strstr(port.name, path)==port.name)
             return &port;
